@@ -7,8 +7,15 @@ prop = [json.loads(l) for l in open('/verif/properties.jsonl') if json.loads(l)[
 wt = '/tmp/seed/%s_%s' % (pid, n)
 import glob
 tried = []
-for mf in sorted(glob.glob('/verif/seeded/%s_*/meta.json' % pid)):
+anchor_files = set(prop['anchors']['files'])
+for mf in sorted(glob.glob('/verif/seeded/*/meta.json')):
     try:
+        same = os.path.basename(os.path.dirname(mf)).startswith(pid + '_')
+        if not same:
+            # a change kept under another property that touches one of this property's files is just as taken (batch 27: rotateY(vec4) was made twice, for C04 and C09)
+            touched = {l[6:].strip() for l in open(os.path.join(os.path.dirname(mf), 'patch.diff')) if l.startswith('+++ b/')}
+            if not (touched & anchor_files):
+                continue
         tried.append('    - ' + json.load(open(mf))['breaks'][:260])
     except Exception:
         pass
